@@ -358,6 +358,10 @@ pub fn replay(sub: &str, case: &J, acc: &mut Acc) {
         }
         "display" => run_display(acc, 0, &m),
         "formatter-agreement" => run_formatter_agreement(acc, 0, &m),
+        "passthrough" => {
+            check_passthrough(acc, 0, &m, false);
+            check_passthrough(acc, 0, &m, true);
+        }
         _ => {}
     }
 }
@@ -422,6 +426,52 @@ fn check_printer_reuse(acc: &mut Acc, rank: u64, m1: &RV, m2: &RV, p: &PR) {
                     } else if !r2 || sink.data != want {
                         acc.violation("printer-reuse", "second-print-differs", "second-print-differs", rank, w(), format!("after the failed print the sink holds {:?}; the second print returned {} and the sink then holds {:?}, expected {:?}", show_bytes(&t1.as_bytes()[..fail_at]), if r2 { "Ok" } else { "Err" }, show_bytes(&sink.data), show_bytes(&want)), case);
                     }
+                }
+            }
+        }
+    }
+}
+
+fn check_passthrough(acc: &mut Acc, rank: u64, m: &RV, custom: bool) {
+    use std::io::Write;
+    let v = m.to_value();
+    let t = match lexpr::to_string(&v) {
+        Ok(t) => t,
+        Err(_) => return,
+    };
+    for k in [1usize, 3, usize::MAX] {
+        acc.evals += 1;
+        acc.nontrivial += 1;
+        let r = guard(|| {
+            let sink = UniformWriter { k, fail_at: None, fail_zero: false, data: Vec::new(), refused: false };
+            fn drive<W: std::io::Write, F: lexpr::print::Formatter>(mut pr: Printer<W, F>, v: &Value) -> (std::io::Result<()>, std::io::Result<usize>, W) {
+                let r = (|| {
+                    pr.write_all(b"; raw \xce\xbb\n")?;
+                    pr.print(v)?;
+                    Ok(())
+                })();
+                let n = pr.write(b" raw2 ");
+                let r = r.and_then(|_| pr.flush()).and_then(|_| pr.print(v));
+                (r, n, pr.into_inner())
+            }
+            if custom {
+                drive(Printer::with_options(sink, lexpr::print::Options::default()), &v)
+            } else {
+                drive(Printer::new(sink), &v)
+            }
+        });
+        let case = || json!({"value": m.to_string(), "entry": "passthrough", "opts": null, "schedule": null});
+        match r {
+            Err(p) => acc.violation("passthrough", "panic", "panic", rank, format!("value={}", m), p, case),
+            Ok((res, n, sink)) => {
+                let acc2 = 6usize.min(k);
+                let mut want = b"; raw \xce\xbb\n".to_vec();
+                want.extend_from_slice(t.as_bytes());
+                want.extend_from_slice(&b" raw2 "[..acc2]);
+                want.extend_from_slice(t.as_bytes());
+                acc.outcome(&(k.min(4), res.is_ok()));
+                if res.is_err() || n.as_ref().ok() != Some(&acc2) || sink.data != want {
+                    acc.violation("passthrough", "passthrough-differs", "passthrough-differs", rank, format!("value={} custom={} k={}", trunc(&m.to_string(), 120), custom, k as isize), format!("result {:?}, raw write returned {:?} (sink accepts {}), sink holds {:?}, expected {:?}", res.map_err(|e| e.to_string()), n.map_err(|e| e.to_string()), acc2, trunc(&show_bytes(&sink.data), 200), trunc(&show_bytes(&want), 200)), case);
                 }
             }
         }
@@ -619,6 +669,20 @@ pub fn run(ctx: &Ctx) -> Report {
             let m1 = &firsts[r / corner.len() / seconds.len()];
             acc.sample(rank, || format!("{} then {} [{}]", m1, m2, p.describe()));
             check_printer_reuse(acc, rank, m1, m2, p);
+        });
+        rep.absorb(sub, accs);
+    }
+    if ctx.want("passthrough") {
+        // Printer is itself an io::Write that hands bytes to its sink unchanged; prints and raw
+        // writes on one printer interleave in call order, and into_inner returns the sink
+        let vs: Vec<RV> = actx().into_iter().chain(long_c07().into_iter().take(6)).collect();
+        let total = (vs.len() * 2) as u64;
+        let sub = Sub::new("passthrough", "on one Printer (default and customised): raw write_all, print, raw write (return value = the sink's), flush, print again, into_inner — over sinks taking 1, 3 or all bytes per call: the sink holds exactly raw1 + text + accepted part of raw2 + text, every write's return value is the sink's; non-trivial = every case", &format!("{} values x 2 printers x 3 sinks", vs.len()));
+        let accs = par_ranks(total, |rank, acc| {
+            let m = &vs[(rank / 2) as usize];
+            let custom = rank % 2 == 1;
+            acc.sample(rank, || format!("{} custom={}", trunc(&m.to_string(), 80), custom));
+            check_passthrough(acc, rank, m, custom);
         });
         rep.absorb(sub, accs);
     }
